@@ -515,18 +515,65 @@ private theorem extAsLen_ok {x : Ext} {v : Len} (h : extAsLen x = .ok v) :
   cases x <;> simp [extAsLen] at h
   exact ⟨_, rfl, h.symm⟩
 
-/-- The control flow of the wrapper, as a relation: first pass `b1`; if its width exceeds the maximum a
-second pass from (`max`, the *computed* margins); if the width is then below the minimum another pass
-from (`min`, the computed margins). -/
-theorem minmax_passes (f : ABox → Except BErr ABox) (b r : ABox) (h : handleMinMaxWidth f b = .ok r) :
+/-- `box.position_x = position_x` of `handle_min_max_width` (`restore = true`); `handle_min_max_height`
+and a box without `position_x` write nothing back (`restore = false`). -/
+def resetX : Bool → Rat → ABox → ABox
+  | true, x, b => { b with posX := x }
+  | false, _, b => b
+
+/-- The common text of the two decorators of `min_max.py`, the `position_x` bookkeeping being the
+parameter (a proof device: the model functions are the literal ones of `Model/BoxModel.lean`). -/
+def handleMinMaxGen (restore : Bool) (function : ABox → Except BErr ABox) (box : ABox) : Except BErr ABox := do
+  let computedMargins := (box.ml, box.mr)
+  let positionX := box.posX
+  let box ← function box
+  let width ← widthOf box
+  let box ← (if box.maxW.ltRat width then do
+      let w ← extAsLen box.maxW
+      function (resetX restore positionX { box with w := w, ml := computedMargins.1, mr := computedMargins.2 })
+    else pure box)
+  let width ← widthOf box
+  let box ← (if width < box.minW then
+      function (resetX restore positionX
+        { box with w := some box.minW, ml := computedMargins.1, mr := computedMargins.2 })
+    else pure box)
+  pure box
+
+theorem minmax_width_is_gen : handleMinMaxWidth = handleMinMaxGen true := rfl
+theorem minmax_height_is_gen : handleMinMaxHeight = handleMinMaxGen false := rfl
+theorem minmax_nox_is_gen : handleMinMaxWidthNoX = handleMinMaxGen false := rfl
+
+/-- The decorator of heights is the decorator of widths on a box without `position_x`. -/
+theorem minmax_height_eq_nox : handleMinMaxHeight = handleMinMaxWidthNoX := rfl
+
+theorem resetX_fields (rs : Bool) (x : Rat) (b : ABox) :
+    (resetX rs x b).w = b.w ∧ (resetX rs x b).ml = b.ml ∧ (resetX rs x b).mr = b.mr ∧
+    (resetX rs x b).pl = b.pl ∧ (resetX rs x b).pr = b.pr ∧ (resetX rs x b).bl = b.bl ∧
+    (resetX rs x b).br = b.br ∧ (resetX rs x b).minW = b.minW ∧ (resetX rs x b).maxW = b.maxW ∧
+    (resetX rs x b).isColumn = b.isColumn := by
+  cases rs <;> simp [resetX]
+
+theorem resetX_w (rs : Bool) (x : Rat) (b : ABox) : (resetX rs x b).w = b.w := (resetX_fields rs x b).1
+theorem resetX_minW (rs : Bool) (x : Rat) (b : ABox) : (resetX rs x b).minW = b.minW :=
+  (resetX_fields rs x b).2.2.2.2.2.2.2.1
+theorem resetX_maxW (rs : Bool) (x : Rat) (b : ABox) : (resetX rs x b).maxW = b.maxW :=
+  (resetX_fields rs x b).2.2.2.2.2.2.2.2.1
+
+/-- The control flow of the wrappers, as a relation: first pass `b1`; if its width exceeds the maximum a
+second pass from (`max`, the *computed* margins, the original `position_x` when it is restored); if the
+width is then below the minimum another pass from (`min`, the computed margins, the original
+`position_x`). -/
+theorem minmax_passes_gen (rs : Bool) (f : ABox → Except BErr ABox) (b r : ABox)
+    (h : handleMinMaxGen rs f b = .ok r) :
     ∃ b1 w1 b2 w2, f b = .ok b1 ∧ b1.w = some w1 ∧
       ((b1.maxW.ltRat w1 = true ∧
-          ∃ m, b1.maxW = .fin m ∧ f { b1 with w := some m, ml := b.ml, mr := b.mr } = .ok b2) ∨
+          ∃ m, b1.maxW = .fin m ∧
+            f (resetX rs b.posX { b1 with w := some m, ml := b.ml, mr := b.mr }) = .ok b2) ∨
        (b1.maxW.ltRat w1 = false ∧ b2 = b1)) ∧
       b2.w = some w2 ∧
-      ((w2 < b2.minW ∧ f { b2 with w := some b2.minW, ml := b.ml, mr := b.mr } = .ok r) ∨
+      ((w2 < b2.minW ∧ f (resetX rs b.posX { b2 with w := some b2.minW, ml := b.ml, mr := b.mr }) = .ok r) ∨
        (¬ w2 < b2.minW ∧ r = b2)) := by
-  unfold handleMinMaxWidth at h
+  unfold handleMinMaxGen at h
   simp only [bind, Except.bind] at h
   cases h1 : f b with
   | error e => simp [h1] at h
@@ -545,7 +592,7 @@ theorem minmax_passes (f : ABox → Except BErr ABox) (b r : ABox) (h : handleMi
           simp only [hx] at h
           obtain ⟨m, hm, hv⟩ := extAsLen_ok hx
           subst hv
-          cases h2 : f { b1 with w := some m, ml := b.ml, mr := b.mr } with
+          cases h2 : f (resetX rs b.posX { b1 with w := some m, ml := b.ml, mr := b.mr }) with
           | error e => simp [h2] at h
           | ok b2 =>
             simp only [h2] at h
@@ -571,28 +618,47 @@ theorem minmax_passes (f : ABox → Except BErr ABox) (b r : ABox) (h : handleMi
           simp only [Except.ok.injEq] at h
           exact Or.inr ⟨hc2, h.symm⟩
 
-/-- The two decorators of `min_max.py` are the same function of the (renamed) attributes. -/
-theorem minmax_height_eq_width : handleMinMaxHeight = handleMinMaxWidth := rfl
+/-- `minmax_passes_gen` for `handle_min_max_width`: every further pass starts from the original
+`position_x`. -/
+theorem minmax_passes (f : ABox → Except BErr ABox) (b r : ABox) (h : handleMinMaxWidth f b = .ok r) :
+    ∃ b1 w1 b2 w2, f b = .ok b1 ∧ b1.w = some w1 ∧
+      ((b1.maxW.ltRat w1 = true ∧
+          ∃ m, b1.maxW = .fin m ∧ f { b1 with w := some m, ml := b.ml, mr := b.mr, posX := b.posX } = .ok b2) ∨
+       (b1.maxW.ltRat w1 = false ∧ b2 = b1)) ∧
+      b2.w = some w2 ∧
+      ((w2 < b2.minW ∧ f { b2 with w := some b2.minW, ml := b.ml, mr := b.mr, posX := b.posX } = .ok r) ∨
+       (¬ w2 < b2.minW ∧ r = b2)) :=
+  minmax_passes_gen true f b r h
 
-/-- (c) **min/max hold after the wrapper**, for *any* wrapped function that keeps a specified size:
-the used size is a number, `≥ min`, and `≤ max` whenever `min ≤ max` (CSS: the minimum wins). -/
-theorem minmax_width (f : ABox → Except BErr ABox) (hf : KeepsSize f) (b r : ABox)
-    (h : handleMinMaxWidth f b = .ok r) :
+/-- The wrapper only ever calls the wrapped function on boxes that carry the *computed* margins of the
+original box: two functions that agree on those are interchangeable under the wrapper. -/
+theorem minmax_congr (f g : ABox → Except BErr ABox) (z : ABox)
+    (hfg : ∀ x : ABox, x.ml = z.ml → x.mr = z.mr → f x = g x) :
+    handleMinMaxWidth f z = handleMinMaxWidth g z := by
+  unfold handleMinMaxWidth
+  have h0 := hfg z rfl rfl
+  have h1 : ∀ (b1 : ABox) (v : Len), f { b1 with w := v, ml := z.ml, mr := z.mr, posX := z.posX } =
+      g { b1 with w := v, ml := z.ml, mr := z.mr, posX := z.posX } := fun b1 v => hfg _ rfl rfl
+  simp only [h0, h1]
+
+/-- (c) min/max hold after either wrapper, with or without the `position_x` bookkeeping. -/
+theorem minmax_gen (rs : Bool) (f : ABox → Except BErr ABox) (hf : KeepsSize f) (b r : ABox)
+    (h : handleMinMaxGen rs f b = .ok r) :
     ∃ w, r.w = some w ∧ b.minW ≤ w ∧ (∀ m, b.maxW = .fin m → b.minW ≤ m → w ≤ m) ∧
       r.minW = b.minW ∧ r.maxW = b.maxW := by
-  obtain ⟨b1, w1, b2, w2, h1, hw1, hmax, hw2, hmin⟩ := minmax_passes f b r h
+  obtain ⟨b1, w1, b2, w2, h1, hw1, hmax, hw2, hmin⟩ := minmax_passes_gen rs f b r h
   obtain ⟨hb1min, hb1max⟩ := hf.bounds _ _ h1
   rcases hmax with ⟨hlt, m, hm, h2⟩ | ⟨hnlt, e2⟩
   · -- max fired: second pass from `m`
     obtain ⟨hb2min, hb2max⟩ := hf.bounds _ _ h2
-    have hw2' : b2.w = some m := hf.size _ _ m h2 rfl
+    have hw2' : b2.w = some m := hf.size _ _ m h2 (by rw [resetX_w])
     have e : w2 = m := by rw [hw2] at hw2'; exact Option.some.inj hw2'
     subst e
-    simp only at hb2min hb2max
+    simp only [resetX_minW, resetX_maxW] at hb2min hb2max
     rcases hmin with ⟨hlt2, h3⟩ | ⟨hge, er⟩
     · obtain ⟨hrmin, hrmax⟩ := hf.bounds _ _ h3
-      simp only at hrmin hrmax
-      refine ⟨b2.minW, hf.size _ _ _ h3 rfl, by grind, ?_, by grind, by grind⟩
+      simp only [resetX_minW, resetX_maxW] at hrmin hrmax
+      refine ⟨b2.minW, hf.size _ _ _ h3 (by rw [resetX_w]), by grind, ?_, by grind, by grind⟩
       intro m' hm' hle
       have : m' = w2 := by rw [← hb1max, hm] at hm'; exact (Ext.fin.inj hm').symm
       grind
@@ -607,8 +673,8 @@ theorem minmax_width (f : ABox → Except BErr ABox) (hf : KeepsSize f) (b r : A
     subst e
     rcases hmin with ⟨hlt2, h3⟩ | ⟨hge, er⟩
     · obtain ⟨hrmin, hrmax⟩ := hf.bounds _ _ h3
-      simp only at hrmin hrmax
-      refine ⟨b2.minW, hf.size _ _ _ h3 rfl, by grind, ?_, by grind, by grind⟩
+      simp only [resetX_minW, resetX_maxW] at hrmin hrmax
+      refine ⟨b2.minW, hf.size _ _ _ h3 (by rw [resetX_w]), by grind, ?_, by grind, by grind⟩
       intro m' _ hle
       grind
     · subst er
@@ -618,12 +684,76 @@ theorem minmax_width (f : ABox → Except BErr ABox) (hf : KeepsSize f) (b r : A
       simp only [hm', Ext.ltRat, decide_eq_false_iff_not] at hnlt
       grind
 
+/-- (c) **min/max hold after the wrapper**, for *any* wrapped function that keeps a specified size:
+the used size is a number, `≥ min`, and `≤ max` whenever `min ≤ max` (CSS: the minimum wins). -/
+theorem minmax_width (f : ABox → Except BErr ABox) (hf : KeepsSize f) (b r : ABox)
+    (h : handleMinMaxWidth f b = .ok r) :
+    ∃ w, r.w = some w ∧ b.minW ≤ w ∧ (∀ m, b.maxW = .fin m → b.minW ≤ m → w ≤ m) ∧
+      r.minW = b.minW ∧ r.maxW = b.maxW :=
+  minmax_gen true f hf b r h
+
 /-- (c) the same for `handle_min_max_height`. -/
 theorem minmax_height (f : ABox → Except BErr ABox) (hf : KeepsSize f) (b r : ABox)
     (h : handleMinMaxHeight f b = .ok r) :
     ∃ w, r.w = some w ∧ b.minW ≤ w ∧ (∀ m, b.maxW = .fin m → b.minW ≤ m → w ≤ m) ∧
       r.minW = b.minW ∧ r.maxW = b.maxW :=
-  minmax_width f hf b r (by rw [← minmax_height_eq_width]; exact h)
+  minmax_gen false f hf b r h
+
+/-- (c) …and for `handle_min_max_width` on a box that has no `position_x` yet. -/
+theorem minmax_width_nox (f : ABox → Except BErr ABox) (hf : KeepsSize f) (b r : ABox)
+    (h : handleMinMaxWidthNoX f b = .ok r) :
+    ∃ w, r.w = some w ∧ b.minW ≤ w ∧ (∀ m, b.maxW = .fin m → b.minW ≤ m → w ≤ m) ∧
+      r.minW = b.minW ∧ r.maxW = b.maxW :=
+  minmax_gen false f hf b r h
+
+/-- A wrapped function that leaves `position_x` alone (everything but `block_level_width` in an rtl
+containing block): the bookkeeping changes nothing, the width wrapper is the height wrapper. -/
+theorem minmax_width_eq_height_of_posX_blind (f : ABox → Except BErr ABox)
+    (hkeep : ∀ b r, f b = .ok r → r.posX = b.posX) (b : ABox) :
+    handleMinMaxWidth f b = handleMinMaxHeight f b := by
+  unfold handleMinMaxWidth handleMinMaxHeight
+  simp only [bind, Except.bind]
+  cases h1 : f b with
+  | error e => rfl
+  | ok b1 =>
+    have hx1 : b.posX = b1.posX := (hkeep b b1 h1).symm
+    simp only
+    cases hw1 : widthOf b1 with
+    | error e => rfl
+    | ok w1 =>
+      simp only
+      have key : ∀ (b2 : ABox), b2.posX = b.posX →
+          (do let width ← widthOf b2
+              let box ← (if width < b2.minW then
+                  f { b2 with w := some b2.minW, ml := b.ml, mr := b.mr, posX := b.posX }
+                else pure b2 : Except BErr ABox)
+              pure box) =
+          (do let width ← widthOf b2
+              let box ← (if width < b2.minW then
+                  f { b2 with w := some b2.minW, ml := b.ml, mr := b.mr }
+                else pure b2 : Except BErr ABox)
+              pure box) := by
+        intro b2 hx2
+        have : ({ b2 with w := some b2.minW, ml := b.ml, mr := b.mr, posX := b.posX } : ABox) =
+            { b2 with w := some b2.minW, ml := b.ml, mr := b.mr } := by rw [← hx2]
+        rw [this]
+      simp only [bind, Except.bind] at key
+      by_cases hc : b1.maxW.ltRat w1 = true
+      · simp only [if_pos hc]
+        cases hx : extAsLen b1.maxW with
+        | error e => rfl
+        | ok v =>
+          simp only
+          have : ({ b1 with w := v, ml := b.ml, mr := b.mr, posX := b.posX } : ABox) =
+              { b1 with w := v, ml := b.ml, mr := b.mr } := by rw [hx1]
+          rw [this]
+          cases h2 : f { b1 with w := v, ml := b.ml, mr := b.mr } with
+          | error e => rfl
+          | ok b2 =>
+            simp only
+            exact key b2 (by rw [hkeep _ _ h2]; exact hx1.symm)
+      · simp only [if_neg hc, pure, Except.pure]
+        exact key b1 hx1.symm
 
 theorem keepsSize_blw (cbw : Rat) (dir : Dir) : KeepsSize (fun b => .ok (blwCore cbw dir b)) where
   size := by
@@ -674,7 +804,7 @@ theorem minmax_total (g : ABox → ABox) (hw : ∀ b, ∃ w, (g b).w = some w)
       ∃ r, (do
         let width ← widthOf b2
         let box ← (if width < b2.minW then
-            (fun b => Except.ok (g b)) { b2 with w := some b2.minW, ml := b.ml, mr := b.mr }
+            (fun b => Except.ok (g b)) { b2 with w := some b2.minW, ml := b.ml, mr := b.mr, posX := b.posX }
           else pure b2 : Except BErr ABox)
         pure box) = Except.ok r := by
     intro b2 ⟨w2, hw2⟩
@@ -712,9 +842,9 @@ theorem blw_minmax_ok (cb : CB) (b : ABox) (hmax : b.maxW ≠ .ninf) :
 
 /-! ## (b)(c) min/max re-entry: the equation and the geometry after the wrapper -/
 
-private theorem reset_eq (cbw : Rat) (dir : Dir) (b : ABox) (w' : Len) :
-    { blwCore cbw dir b with w := w', ml := b.ml, mr := b.mr } =
-      { b with w := w', posX := (blwCore cbw dir b).posX } := by
+private theorem reset_eq (cbw : Rat) (dir : Dir) (b : ABox) (w' : Len) (x : Rat) :
+    { blwCore cbw dir b with w := w', ml := b.ml, mr := b.mr, posX := x } =
+      { b with w := w', posX := x } := by
   obtain ⟨_, _, _, h1, h2, h3, h4, h5, h6, h7⟩ := specified_kept cbw dir b
   simp only [ABox.mk.injEq, h1, h2, h3, h4, h5, h6, h7, and_self]
 
@@ -725,17 +855,16 @@ def pass (cbw : Rat) (dir : Dir) (b : ABox) (w x : Rat) : ABox :=
 
 /-- (c) **re-entry**: the result of the decorated `block_level_width` is the result of one plain pass of
 `block_level_width` started from the *computed* margins of the box (not the used margins of the previous
-pass) and from the width `w'` that is the original one, `max-width` or `min-width`.  The four cases of
-the control flow, with the `position_x` each pass starts from. -/
+pass), from the **original** `position_x` (not the one a previous pass shifted to) and from the width
+`w'` that is the original one, `max-width` or `min-width`.  The four cases of the control flow. -/
 theorem minmax_reentry (cbw : Rat) (dir : Dir) (b r : ABox)
     (h : handleMinMaxWidth (fun b => .ok (blwCore cbw dir b)) b = .ok r) :
     let b1 := blwCore cbw dir b
     ∃ w1, b1.w = some w1 ∧
       ((b.maxW.ltRat w1 = false ∧ ¬ w1 < b.minW ∧ r = b1) ∨
-       (∃ m, b.maxW = .fin m ∧ w1 > m ∧ ¬ m < b.minW ∧ r = pass cbw dir b m b1.posX) ∨
-       (b.maxW.ltRat w1 = false ∧ w1 < b.minW ∧ r = pass cbw dir b b.minW b1.posX) ∨
-       (∃ m, b.maxW = .fin m ∧ w1 > m ∧ m < b.minW ∧
-          r = pass cbw dir b b.minW (pass cbw dir b m b1.posX).posX)) := by
+       (∃ m, b.maxW = .fin m ∧ w1 > m ∧ ¬ m < b.minW ∧ r = pass cbw dir b m b.posX) ∨
+       (b.maxW.ltRat w1 = false ∧ w1 < b.minW ∧ r = pass cbw dir b b.minW b.posX) ∨
+       (∃ m, b.maxW = .fin m ∧ w1 > m ∧ m < b.minW ∧ r = pass cbw dir b b.minW b.posX)) := by
   intro b1
   obtain ⟨b1', w1, b2, w2, h1, hw1, hmax, hw2, hmin⟩ := minmax_passes _ b r h
   simp only [Except.ok.injEq] at h1
@@ -751,9 +880,9 @@ theorem minmax_reentry (cbw : Rat) (dir : Dir) (b r : ABox)
       rw [hm] at this
       simpa [Ext.ltRat] using this
     simp only [Except.ok.injEq] at h2
-    rw [reset_eq cbw dir b (some m)] at h2
+    rw [reset_eq cbw dir b (some m) b.posX] at h2
     subst h2
-    have hk2 := specified_kept cbw dir { b with w := some m, posX := (blwCore cbw dir b).posX }
+    have hk2 := specified_kept cbw dir { b with w := some m, posX := b.posX }
     have hmn2 := hk2.2.2.2.2.2.2.2.1
     have hw2' := hk2.1 m rfl
     simp only at hmn2
@@ -763,8 +892,8 @@ theorem minmax_reentry (cbw : Rat) (dir : Dir) (b r : ABox)
     rw [hmx1] at hm
     rcases hmin with ⟨hlt2, h3⟩ | ⟨hge, er⟩
     · simp only [Except.ok.injEq] at h3
-      have hre := reset_eq cbw dir { b with w := some w2, posX := (blwCore cbw dir b).posX }
-        (some (blwCore cbw dir { b with w := some w2, posX := (blwCore cbw dir b).posX }).minW)
+      have hre := reset_eq cbw dir { b with w := some w2, posX := b.posX }
+        (some (blwCore cbw dir { b with w := some w2, posX := b.posX }).minW) b.posX
       simp only at hre
       rw [hre] at h3
       rw [hmn2] at h3 hlt2
@@ -778,23 +907,24 @@ theorem minmax_reentry (cbw : Rat) (dir : Dir) (b r : ABox)
     have hnlt' : b.maxW.ltRat w1 = false := by rw [← hmx1]; exact hnlt
     rcases hmin with ⟨hlt2, h3⟩ | ⟨hge, er⟩
     · simp only [Except.ok.injEq] at h3
-      rw [reset_eq cbw dir b (some (blwCore cbw dir b).minW)] at h3
+      rw [reset_eq cbw dir b (some (blwCore cbw dir b).minW) b.posX] at h3
       rw [hmn1] at h3 hlt2
       exact Or.inr (Or.inr (Or.inl ⟨hnlt', hlt2, h3.symm⟩))
     · rw [hmn1] at hge
       exact Or.inl ⟨hnlt', hge, er⟩
 
-/-- The decorated function is one last plain pass from the computed margins and some `position_x`. -/
+/-- The decorated function **is** one plain pass of `block_level_width` from the computed margins and the
+original `position_x`, with the width replaced by the clamped one. -/
 theorem minmax_last_pass (cbw : Rat) (dir : Dir) (b r : ABox)
     (h : handleMinMaxWidth (fun b => .ok (blwCore cbw dir b)) b = .ok r) :
-    ∃ w' x', r = blwCore cbw dir { b with w := w', posX := x' } ∧
+    ∃ w', r = blwCore cbw dir { b with w := w', posX := b.posX } ∧
       (w' = b.w ∨ w' = some b.minW ∨ ∃ m, b.maxW = .fin m ∧ w' = some m) := by
   obtain ⟨w1, _, hcase⟩ := minmax_reentry cbw dir b r h
   rcases hcase with ⟨_, _, e⟩ | ⟨m, hm, _, _, e⟩ | ⟨_, _, e⟩ | ⟨m, hm, _, _, e⟩
-  · exact ⟨b.w, b.posX, by rw [e], Or.inl rfl⟩
-  · exact ⟨some m, _, e, Or.inr (Or.inr ⟨m, hm, rfl⟩)⟩
-  · exact ⟨some b.minW, _, e, Or.inr (Or.inl rfl)⟩
-  · exact ⟨some b.minW, _, e, Or.inr (Or.inl rfl)⟩
+  · exact ⟨b.w, by rw [e], Or.inl rfl⟩
+  · exact ⟨some m, e, Or.inr (Or.inr ⟨m, hm, rfl⟩)⟩
+  · exact ⟨some b.minW, e, Or.inr (Or.inl rfl)⟩
+  · exact ⟨some b.minW, e, Or.inr (Or.inl rfl)⟩
 
 /-- (b)(c) **the width equation after min/max**: if one of the computed margins is `auto` and the final
 width fits beside the paddings, borders and the specified margin, the equation holds for the final
@@ -803,11 +933,11 @@ theorem width_equation_minmax (cb : CB) (b r : ABox) (w : Rat)
     (h : blockLevelWidthMinMax cb b = .ok r) (hw : r.w = some w)
     (hauto : b.ml = none ∨ b.mr = none) (hfit : b.specTotal w ≤ cb.width) :
     outer? r = some cb.width := by
-  obtain ⟨w', x', e, _⟩ := minmax_last_pass cb.width cb.direction b r h
-  have hnot : ¬ OverC cb.width { b with w := w', posX := x' } := by
+  obtain ⟨w', e, _⟩ := minmax_last_pass cb.width cb.direction b r h
+  have hnot : ¬ OverC cb.width { b with w := w', posX := b.posX } := by
     rintro ⟨w'', hw'', hover⟩
     simp only at hw''
-    have hk := (specified_kept cb.width cb.direction { b with w := w', posX := x' }).1 w'' hw''
+    have hk := (specified_kept cb.width cb.direction { b with w := w', posX := b.posX }).1 w'' hw''
     rw [← e, hw] at hk
     have : w = w'' := Option.some.inj hk
     subst this
@@ -815,58 +945,52 @@ theorem width_equation_minmax (cb : CB) (b r : ABox) (w : Rat)
     · rcases hauto with h0 | h0
       · exact hl h0
       · exact hr h0
-    · have : ABox.specTotal { b with w := w', posX := x' } w = b.specTotal w := rfl
+    · have : ABox.specTotal { b with w := w', posX := b.posX } w = b.specTotal w := rfl
       rw [this] at hgt
       exact absurd hgt (Rat.not_lt.mpr hfit)
   rw [e]
   exact (width_equation_partial cb.width cb.direction _ hnot).1
 
-private theorem posX_kept_ltr (cbw : Rat) (dir : Dir) (b : ABox) (h : dir = .ltr ∨ b.isColumn = true) :
-    (blwCore cbw dir b).posX = b.posX := by
-  obtain ⟨o, _, hfl⟩ := edge_flush cbw dir b
-  have hc : (blwCore cbw dir b).isColumn = b.isColumn := (specified_kept cbw dir b).2.2.2.2.2.2.2.2.2
-  rw [hc] at hfl
-  rcases h with h | h
-  · subst h; simpa using hfl
-  · rw [h] at hfl; simpa using hfl
+/-- (b)(f) **the start/end edge after min/max, every input, ltr and rtl** (full strength since the repair
+of `rtl-minmax-shift-accumulates`, /repo 165e254): after the decorated `block_level_width` the margin-left
+edge is at the start of the containing block in ltr (and for columns), the margin-right edge at its end
+in rtl — whatever `min-width` / `max-width` do and however many passes run, because every pass starts
+from the original `position_x`. -/
+theorem edge_flush_minmax (cbw : Rat) (dir : Dir) (b r : ABox)
+    (h : handleMinMaxWidth (fun b => .ok (blwCore cbw dir b)) b = .ok r) :
+    EdgeFlush cbw dir b.posX r := by
+  obtain ⟨w', e, _⟩ := minmax_last_pass cbw dir b r h
+  rw [e]
+  exact edge_flush cbw dir { b with w := w', posX := b.posX }
 
-private theorem pass_flush (cbw : Rat) (dir : Dir) (b : ABox) (w x : Rat) (hx : x = b.posX) :
-    EdgeFlush cbw dir b.posX (pass cbw dir b w x) := by
-  subst hx
-  exact edge_flush cbw dir { b with w := some w, posX := b.posX }
+/-- The same for the function as called by the layout. -/
+theorem edge_flush_blw_minmax (cb : CB) (b r : ABox) (h : blockLevelWidthMinMax cb b = .ok r) :
+    EdgeFlush cb.width cb.direction b.posX r :=
+  edge_flush_minmax cb.width cb.direction b r h
 
-/-- (b)(f) `ltr` (and columns), decorated function, **every** input: the margin-left edge stays at the
-start of the containing block, whatever min/max do. -/
+/-- (b)(f) `ltr` (and columns): special case of `edge_flush_minmax` kept under its former name. -/
 theorem edge_flush_minmax_ltr (cbw : Rat) (dir : Dir) (b r : ABox)
     (h : handleMinMaxWidth (fun b => .ok (blwCore cbw dir b)) b = .ok r)
-    (hdir : dir = .ltr ∨ b.isColumn = true) :
-    EdgeFlush cbw dir b.posX r := by
-  obtain ⟨w1, _, hcase⟩ := minmax_reentry cbw dir b r h
-  have hx1 := posX_kept_ltr cbw dir b hdir
-  rcases hcase with ⟨_, _, e⟩ | ⟨m, _, _, _, e⟩ | ⟨_, _, e⟩ | ⟨m, _, _, _, e⟩
-  · rw [e]; exact edge_flush cbw dir b
-  · rw [e]; exact pass_flush cbw dir b m _ hx1
-  · rw [e]; exact pass_flush cbw dir b b.minW _ hx1
-  · have hx2 := posX_kept_ltr cbw dir { b with w := some m, posX := (blwCore cbw dir b).posX } hdir
-    rw [e]; exact pass_flush cbw dir b b.minW _ (hx2.trans hx1)
+    (_hdir : dir = .ltr ∨ b.isColumn = true) :
+    EdgeFlush cbw dir b.posX r :=
+  edge_flush_minmax cbw dir b r h
 
-/--
-Full statement (false of the code, see `Witness.C05.rtl_shift_accumulates`):
-  `handleMinMaxWidth (blwCore cbw dir) b = .ok r → EdgeFlush cbw dir b.posX r`   for every `b`.
-(b)(f) `rtl`, decorated function: the margin-right edge is at the end of the containing block **provided
-at most the last pass is over-constrained**: the first pass is not, and `min-width ≤ max-width` (so that
-at most one constraint fires).  Without the hypotheses the `position_x` shifts of the passes add up. -/
-theorem edge_flush_minmax_partial (cbw : Rat) (dir : Dir) (b r : ABox)
-    (h : handleMinMaxWidth (fun b => .ok (blwCore cbw dir b)) b = .ok r)
-    (hfirst : ¬ OverC cbw b) (hmm : ∀ m, b.maxW = .fin m → b.minW ≤ m) :
-    EdgeFlush cbw dir b.posX r := by
-  obtain ⟨w1, _, hcase⟩ := minmax_reentry cbw dir b r h
-  have hx1 := (width_equation_partial cbw dir b hfirst).2
-  rcases hcase with ⟨_, _, e⟩ | ⟨m, _, _, _, e⟩ | ⟨_, _, e⟩ | ⟨m, hm, _, hlt, e⟩
-  · rw [e]; exact edge_flush cbw dir b
-  · rw [e]; exact pass_flush cbw dir b m _ hx1
-  · rw [e]; exact pass_flush cbw dir b b.minW _ hx1
-  · exact absurd (hmm m hm) (Rat.not_le.mpr hlt)
+/-- **Re-layout is idempotent** (what `_in_flow_layout` relies on since /repo 7b9d21e, where it restores
+`child.position_x` before laying the child out a second time): running the decorated `block_level_width`
+again on its own result, with the computed margins, the computed width and the original `position_x` put
+back, gives the same result — in ltr and rtl, whatever min/max did. -/
+theorem blw_minmax_relayout (cb : CB) (b r : ABox) (h : blockLevelWidthMinMax cb b = .ok r) :
+    blockLevelWidthMinMax cb { r with ml := b.ml, mr := b.mr, w := b.w, posX := b.posX } = .ok r := by
+  have hk : ({ r with ml := b.ml, mr := b.mr, w := b.w, posX := b.posX } : ABox) = b := by
+    obtain ⟨w', e, _⟩ := minmax_last_pass cb.width cb.direction b r h
+    obtain ⟨_, _, _, h1, h2, h3, h4, h5, h6, h7⟩ :=
+      specified_kept cb.width cb.direction { b with w := w', posX := b.posX }
+    rw [← e] at h1 h2 h3 h4 h5 h6 h7
+    simp only at h1 h2 h3 h4 h5 h6 h7
+    cases b
+    simp only [ABox.mk.injEq, true_and]
+    simp_all
+  rw [hk]; exact h
 
 /-- When no constraint fires the wrapper is the plain function. -/
 theorem minmax_noop (cbw : Rat) (dir : Dir) (b r : ABox)
@@ -1232,24 +1356,17 @@ theorem minmax_fits (cbw : Rat) (dir : Dir) (b r : ABox)
   have h1 : ¬ OverC cbw b := by
     have := not_overC_of_fit cbw b b.w b.posX hauto (fun w hw => hfit w (Or.inl hw))
     exact this
-  have hx1 := (width_equation_partial cbw dir b h1).2
   rcases hcase with ⟨_, _, e⟩ | ⟨m, hm, _, _, e⟩ | ⟨_, _, e⟩ | ⟨m, hm, _, _, e⟩
   · rw [e]; exact width_equation_partial cbw dir b h1
-  · have hn := not_overC_of_fit cbw b (some m) (blwCore cbw dir b).posX hauto
+  · have hn := not_overC_of_fit cbw b (some m) b.posX hauto
       (fun w hw => hfit w (Or.inr (Or.inr (by rw [hm, Option.some.inj hw]))))
-    have := width_equation_partial cbw dir _ hn
-    rw [e]; exact ⟨this.1, this.2.trans hx1⟩
-  · have hn := not_overC_of_fit cbw b (some b.minW) (blwCore cbw dir b).posX hauto
+    rw [e]; exact width_equation_partial cbw dir _ hn
+  · have hn := not_overC_of_fit cbw b (some b.minW) b.posX hauto
       (fun w hw => hfit w (Or.inr (Or.inl (Option.some.inj hw).symm)))
-    have := width_equation_partial cbw dir _ hn
-    rw [e]; exact ⟨this.1, this.2.trans hx1⟩
-  · have hn2 := not_overC_of_fit cbw b (some m) (blwCore cbw dir b).posX hauto
-      (fun w hw => hfit w (Or.inr (Or.inr (by rw [hm, Option.some.inj hw]))))
-    have hx2 := (width_equation_partial cbw dir _ hn2).2
-    have hn := not_overC_of_fit cbw b (some b.minW) (pass cbw dir b m (blwCore cbw dir b).posX).posX hauto
+    rw [e]; exact width_equation_partial cbw dir _ hn
+  · have hn := not_overC_of_fit cbw b (some b.minW) b.posX hauto
       (fun w hw => hfit w (Or.inr (Or.inl (Option.some.inj hw).symm)))
-    have := width_equation_partial cbw dir _ hn
-    rw [e]; exact ⟨this.1, this.2.trans (hx2.trans hx1)⟩
+    rw [e]; exact width_equation_partial cbw dir _ hn
 
 /-- (a) without over-constraint, non-negative specified margins give non-negative used margins (an
 `auto` margin receives the non-negative remaining space). -/
@@ -1318,9 +1435,9 @@ theorem child_inside_parent (pw : Rat) (dir : Dir) (cbH : Len) (x fs : Rat) (s :
   obtain ⟨ho, hx⟩ := minmax_fits pw dir (aboxOfUsed u' x) r hr hauto hfit
   have hx' : r.posX = x := hx
   -- the last pass is not over-constrained: its margins are non-negative
-  obtain ⟨w', x', e, hw'⟩ := minmax_last_pass pw dir (aboxOfUsed u' x) r hr
-  have hn : ¬ OverC pw { aboxOfUsed u' x with w := w', posX := x' } := by
-    apply not_overC_of_fit pw (aboxOfUsed u' x) w' x' hauto
+  obtain ⟨w', e, hw'⟩ := minmax_last_pass pw dir (aboxOfUsed u' x) r hr
+  have hn : ¬ OverC pw { aboxOfUsed u' x with w := w', posX := (aboxOfUsed u' x).posX } := by
+    apply not_overC_of_fit pw (aboxOfUsed u' x) w' _ hauto
     intro w0 hw0
     apply hfit
     rcases hw' with h1 | h1 | ⟨m, hm, h1⟩
